@@ -166,6 +166,8 @@ def proj_value(log, vlanes):
             out.append(f)
         elif k in ("drop", "dropread", "eof", "frame_error"):
             out.append({"e": "gone", "r": e["r"]})
+        elif k in ("stopping", "stop"):
+            out.append({"e": "stopping"})
         elif k == "quiescent":
             out.append({"e": "quiescent", "drained": e["drained"]})
     return out
@@ -380,6 +382,8 @@ def proj_map(log, mlanes, keys=(1, 2, 3)):
             out.append(f)
         elif k in ("drop", "dropread", "eof", "frame_error"):
             out.append({"e": "gone", "r": e["r"]})
+        elif k in ("stopping", "stop"):
+            out.append({"e": "stopping"})
         elif k == "quiescent":
             out.append({"e": "quiescent", "drained": e["drained"]})
     return out
@@ -427,6 +431,8 @@ def proj_nocoalesce(log, slane="sup", clane="cmd"):
             out.append({"e": "aout", "t": e["node"], "v": v if v is not None else -999})
         elif k in ("drop", "dropread", "eof", "frame_error"):
             out.append({"e": "gone", "r": e["r"]})
+        elif k in ("stopping", "stop"):
+            out.append({"e": "stopping"})
         elif k == "quiescent":
             out.append({"e": "quiescent", "drained": e["drained"], "targets_drained": True})
     return out
